@@ -70,6 +70,17 @@ func genHistory(t *rapid.T, label string, allowReject bool, maxBuilds, maxDocs i
 		}
 		h.Steps = append(h.Steps, st)
 	}
+	if maxDocs >= 20 && gen.Chance(t, label+"huge", 6) {
+		// two batches with more than 4096 postings lists each on the same pooled builder
+		// (size-capped retention logic would only show here), followed by a small one
+		for k := 0; k < 2; k++ {
+			w := gen.GenWide(t, fmt.Sprintf("%shuge%d", label, k))
+			w.N = rapid.SampledFrom([]int{4200, 4500}).Draw(t, fmt.Sprintf("%shugeN%d", label, k))
+			w.DV, w.IDDV = big.WideDV, big.IDDV
+			h.Steps = append(h.Steps, buildStep{Batch: &spec.BatchSpec{Wide: w}, ChunkMode: 0})
+		}
+		h.Steps = append(h.Steps, buildStep{Batch: small.GenBatch(t, label+"afterHuge", gen.BatchOpts{MaxDocs: 3}), ChunkMode: 0})
+	}
 	return h
 }
 
@@ -132,6 +143,9 @@ func runHistoryCase(c historyCase) *Violation {
 	const prop = "C10"
 	prevProcs := runtime.GOMAXPROCS(1) // sync.Pool hands the same builder back on one P
 	defer runtime.GOMAXPROCS(prevProcs)
+	// a GC cycle empties sync.Pools; large batches would otherwise trigger one between two
+	// builds and the later build would silently get a fresh builder
+	defer debug.SetGCPercent(debug.SetGCPercent(-1))
 	zap.VerifResetPools()
 	oldValidate := zap.ValidateDocFields
 	defer func() { zap.ValidateDocFields = oldValidate }()
